@@ -402,3 +402,7 @@ def run(prog, chk, tier):
     auth_block_rules(prog, chk, "C11")
     stackrt.guarded(chk, "C11.derivation-scenarios", derivation_scenarios, prog, chk, "C11", tier)
     stackrt.guarded(chk, "C11.comment-history-scenarios", comment_history_scenarios, prog, chk, "C11", tier)
+    # the structural rules recognise the if/else spelling; every combination of present / absent naming values and security code is also derived in the scenarios
+    chk.shape_fallback("one-initial-block", ["derivation-scenarios"])
+    chk.shape_fallback("update-block-iff", ["derivation-scenarios"])
+    chk.shape_fallback("pop-or-set", ["comment-history-scenarios"])
